@@ -304,6 +304,33 @@ pub struct Run {
     pub report: verif::Report,
 }
 
+/// A finished CFG is a graph of `Rc` cycles and would never be freed: break the
+/// cycles the public API lets us break (edges, function bodies and exits).
+pub fn dispose(cfg: &Cfg) {
+    let mut seen: Vec<std::rc::Rc<riscv_analysis::cfg::Function>> = Vec::new();
+    for f in cfg.functions().values() {
+        if !seen.iter().any(|x| std::rc::Rc::ptr_eq(x, f)) {
+            seen.push(std::rc::Rc::clone(f));
+        }
+    }
+    for f in seen {
+        let _ = f.set_nodes(vec![]);
+        let _ = f.set_exit(f.entry());
+    }
+    for n in cfg.nodes() {
+        n.clear_nexts();
+        n.clear_prevs();
+    }
+}
+
+impl Drop for Run {
+    fn drop(&mut self) {
+        if let Ok(cfg) = &self.cfg {
+            dispose(cfg);
+        }
+    }
+}
+
 #[derive(Debug, Clone)]
 pub struct Panicked(pub String);
 
